@@ -135,6 +135,51 @@ class NumEval:
             return float(t.as_long())
         raise NotImplementedError(f"numeval: {t.decl()}")
 
+    # ----- tolerant truth of a boolean term (replay only) -----
+    def holds(self, t, tol=1e-7, strict=False, explain=None):
+        """loose (default): could `t` hold if every real comparison is given the slack tol*(1+|a|+|b|)?
+        strict: does it hold with that margin?  `not holds(goal)` therefore means: robustly violated.
+        explain: list that receives a description of the first atom that fails (loose mode)."""
+        if isinstance(t, (bool, np.bool_)):
+            return bool(t)
+        k = t.decl().kind()
+        ch = t.children()
+        if k == z3.Z3_OP_TRUE:
+            return True
+        if k == z3.Z3_OP_FALSE:
+            return False
+        if k == z3.Z3_OP_AND:
+            return all(self.holds(c, tol, strict, explain) for c in ch)
+        if k == z3.Z3_OP_OR:
+            return any(self.holds(c, tol, strict, None) for c in ch)
+        if k == z3.Z3_OP_NOT:
+            return not self.holds(ch[0], tol, not strict, None)
+        if k == z3.Z3_OP_IMPLIES:
+            return (not self.holds(ch[0], tol, not strict, None)) or self.holds(ch[1], tol, strict, explain)
+        if k == z3.Z3_OP_ITE and z3.is_bool(t):
+            return self.holds(ch[1], tol, strict, explain) if self.term(ch[0]) else self.holds(ch[2], tol, strict, explain)
+        if k in (z3.Z3_OP_EQ, z3.Z3_OP_LE, z3.Z3_OP_LT, z3.Z3_OP_GE, z3.Z3_OP_GT, z3.Z3_OP_DISTINCT) and len(ch) == 2 and not z3.is_bool(ch[0]):
+            a, b = self.term(ch[0]), self.term(ch[1])
+            if not (math.isfinite(a) and math.isfinite(b)):
+                raise ArithmeticError("non-finite value at the replay point")
+            slack = tol * (1.0 + abs(a) + abs(b))
+            if strict:
+                slack = -slack
+            if k == z3.Z3_OP_EQ:
+                r = (abs(a - b) <= slack) if not strict else (a == b)
+            elif k == z3.Z3_OP_DISTINCT:
+                r = (a != b) if not strict else (abs(a - b) > -slack)
+            elif k in (z3.Z3_OP_LE, z3.Z3_OP_LT):
+                r = a <= b + slack
+            else:
+                r = a >= b - slack
+            if not r and explain is not None and not explain:
+                explain.append(f"{a!r} {t.decl().name()} {b!r} fails")
+            return r
+        if k == z3.Z3_OP_EQ and z3.is_bool(ch[0]):
+            return self.holds(ch[0], tol, strict, None) == self.holds(ch[1], tol, strict, None)
+        return bool(self.term(t))
+
     def scalar(self, x):
         if isinstance(x, Cx):
             return complex(self.scalar(x.re), self.scalar(x.im))
